@@ -24,12 +24,13 @@ ObsState(o, xp) ==
   [disk |-> Fn(o.disk), out |-> OutFn(o.out), tree |-> Fn(o.tree), fs |-> Fn(o.fs),
    sparse |-> SetOf(o.sparse), xp |-> xp, stats |-> o.stats, err |-> o.err]
 
-IsEdit(a) == a \in {"Write", "Chmod", "Symlink", "Delete", "FileToDir", "RmTree", "DirToFile"}
+IsEdit(a) == a \in {"Write", "Chmod", "Symlink", "Delete", "Mkfifo", "FileToDir", "RmTree", "DirToFile"}
 EditEnabled(s, e) ==
   CASE e.a = "Write" -> CanWrite(s, e.p, e.c)
     [] e.a = "Chmod" -> CanChmod(s, e.p)
     [] e.a = "Symlink" -> CanSymlink(s, e.p, e.t)
     [] e.a = "Delete" -> CanDelete(s, e.p)
+    [] e.a = "Mkfifo" -> CanMkfifo(s, e.p)
     [] e.a = "FileToDir" -> CanFileToDir(s, e.p)
     [] e.a = "RmTree" -> CanRmTree(s, e.p)
     [] e.a = "DirToFile" -> CanDirToFile(s, e.p, e.c)
@@ -38,6 +39,7 @@ EditDo(s, e) ==
     [] e.a = "Chmod" -> DoChmod(s, e.p)
     [] e.a = "Symlink" -> DoSymlink(s, e.p, e.t)
     [] e.a = "Delete" -> DoDelete(s, e.p)
+    [] e.a = "Mkfifo" -> DoMkfifo(s, e.p)
     [] e.a = "FileToDir" -> DoFileToDir(s, e.p)
     [] e.a = "RmTree" -> DoRmTree(s, e.p)
     [] e.a = "DirToFile" -> DoDirToFile(s, e.p, e.c)
